@@ -421,7 +421,7 @@ def _make_fields_iterator(
         ]
     # Otherwise, try using the public type-hints.
     else:
-        attribs = inspection.get_type_hints(tp)
+        attribs = inspection.get_type_hints(tp, exhaustive=False)
         public_attribs = [
             k
             for k, hint in attribs.items()
